@@ -652,6 +652,9 @@ def sec_missing(rep, tier):
                     rep.check(f"C08/missing/weights/{kind}/nf={nf}/ihq={ihq}/pto_evol={pto_evol}", case, sy, [sy.x > 0, sy.x < 1, sy.Q2 > 0] + sy.mass_pre())
 
 
+SMALL_Z = (1e-4, 1e-3)
+
+
 def sec_missing_bounded(rep, tier):
     """BOUNDED stand-in for the coefficient functions of the 'missing' channel (LeProHQ dq1 + Adler
     spline: numerical, no contract reaches them): the real massive kernel of generate_missing and the
@@ -681,6 +684,8 @@ def sec_missing_bounded(rep, tier):
                 for z in (0.01, 0.1, 0.5):
                     res[("rs", z, eps)] = (hs[pid]["reg"](z) + hs[pid]["sing"](z), as_[pid]["reg"](z) + as_[pid]["sing"](z))
                     res[("T", z, eps)] = (_unit_functional(hs[pid], z), _unit_functional(as_[pid], z))
+                for z in SMALL_Z:
+                    res[("rs", z, eps)] = (hs[pid]["reg"](z) + hs[pid]["sing"](z), as_[pid]["reg"](z) + as_[pid]["sing"](z))
             for q, label in (("rs", "reg+sing-pointwise"), ("T", "T[1_[z,1]]-local-term")):
                 rep.cases += 1
                 bad = []
@@ -693,6 +698,17 @@ def sec_missing_bounded(rep, tier):
                 o = Ob(f"C08/missing/bounded/NC-{kind}-non-singlet/{label}/massive->asymptotic@Q2/m2=1e4,1e6", "bounded", PROVED if not bad else "refuted", "native", 0, "agree" if not bad else f"(z, massive at 1e6, asymptotic at 1e6, |difference| at 1e4): {bad}", {} if not bad else {"Q2/m2": 1e6, "z": bad[0][0], "massive": bad[0][1], "asymptotic": bad[0][2]}, {"confirmed": True, "note": "evaluated on the real kernels with floats"} if bad else {})
                 o.bounded = True
                 rep.add(o)
+            # small z (grids reach 1e-4 and below): eta = xi/(4z) is beyond 1e8 there at Q2/m2 = 1e6; the
+            # tables lose digits close to where LeProHQ stops answering, so only the relative size is asked for
+            rep.cases += 1
+            bad = []
+            for z in SMALL_Z:
+                h6, a6 = res[("rs", z, 1e-6)]
+                if not abs(h6 - a6) <= 2e-3 * max(1.0, abs(h6), abs(a6)):
+                    bad.append((z, round(h6, 4), round(a6, 4)))
+            o = Ob(f"C08/missing/bounded/NC-{kind}-non-singlet/reg+sing-pointwise/small-z/massive->asymptotic@Q2/m2=1e6", "bounded", PROVED if not bad else "refuted", "native", 0, f"z in {SMALL_Z}: " + ("agree to 2e-3" if not bad else f"(z, massive, asymptotic): {bad}"), {} if not bad else {"Q2/m2": 1e6, "z": bad[0][0], "massive": bad[0][1], "asymptotic": bad[0][2]}, {"confirmed": True, "note": "evaluated on the real kernels with floats"} if bad else {})
+            o.bounded = True
+            rep.add(o)
     finally:
         EPS_NATIVE = keep
 
